@@ -173,9 +173,14 @@ Acceptable(v, e) == ~EnforcedCanonJSON(v) \/ NumOf(e) \notin NonCanonicalNums
 \* ASCII (not events: Build reports the field check's error; for cp255 that error is marked persistable).
 FineLims == {"sk-b255", "type-b255", "sender-b255"}
 OverLims == {"sk-cp255", "sk-b256", "type-cp255", "type-b256", "sender-b256"}
+\* cp255 ("persistable"): the library hands such an event over next to the error and callers may keep it
+\* (EventJSONs.UntrustedEvents does).  For C04 it is an event like any other: the tamper family carries it.
+PersistLims == {"sk-cp255", "type-cp255"}
 LimKinds(v) == IF Family = "len" THEN (FineLims \cup OverLims) \ (IF PseudoIDs(v) THEN {"sender-b255", "sender-b256"} ELSE {})
+               ELSE IF Family = "tamper" THEN {"none"} \cup PersistLims
                ELSE {"none"}
-BuildRefuses(v, p) == (EnforcedCanonJSON(v) /\ p.num \in NonCanonicalNums) \/ p.lim \in OverLims
+BuildRefuses(v, p) == \/ (EnforcedCanonJSON(v) /\ p.num \in NonCanonicalNums)
+                      \/ (p.lim \in OverLims /\ ~(Family = "tamper" /\ p.lim \in PersistLims))
 
 ProtoOf(i, w, n, lm) ==
     LET s == Shape(i)  x == Variant(w) IN
@@ -246,6 +251,8 @@ Init ==
           LET p == ProtoOf(i, w, n, lm) IN
           \* the create event cited explicitly: where there is a room ID to derive it from
           /\ (w \in CreateCiting => DomainlessRoomIDs(v) /\ ~Roomless(v, p))
+          \* tamper: the over-long state key / type on the custom state event
+          /\ (Family = "tamper" /\ lm # "none" => i = 3)
           /\ ver = v
           /\ proto = p
           /\ built = BuildEvent(v, p, "E1")
@@ -439,7 +446,7 @@ SecondSignerShape == "membership" \in DOMAIN proto.con /\ (proto.con["membership
                             THEN proto.con["join_authorised_via_users_server"] = "hs2" ELSE FALSE))
 TamperNext ==
     /\ phase = "tamper"
-    /\ \E T \in (IF PreRedacted \/ SecondSignerShape \/ Len(hist) > 0
+    /\ \E T \in (IF PreRedacted \/ SecondSignerShape \/ Len(hist) > 0 \/ proto.lim # "none"
                   THEN {X \in SUBSET ApplicableElems(ver, ev) : Cardinality(X) <= (IF TamperMax > 2 /\ ~PreRedacted THEN 2 ELSE 1)}
                   ELSE TamperSets(ApplicableElems(ver, ev))) :
        \E hm \in HashModes :
